@@ -108,18 +108,28 @@ func checkConflictRule(r *Run, k *kvCtx, rule string) {
 		return
 	}
 	op := paramObj(fn, 2)
-	var dig types.Object
+	var dig, derr types.Object
 	tail := -1
 	for i, st := range fn.Body.List {
 		if as, ok := st.(*ast.AssignStmt); ok && len(as.Rhs) == 1 && len(as.Lhs) == 2 {
 			if call, ok := ast.Unparen(as.Rhs[0]).(*ast.CallExpr); ok {
 				if f := CalleeFunc(fn, call); f != nil && f.Name() == "getDigestFromKV" {
-					dig = objOf(fn, as.Lhs[0])
+					dig, derr = objOf(fn, as.Lhs[0]), objOf(fn, as.Lhs[1])
+					continue
 				}
 			}
 		}
-		if ifs, ok := st.(*ast.IfStmt); ok && dig != nil && tail < 0 {
-			if o, trueMeansNil, ok := nilCompare(fn, ifs.Cond); ok && isErrorType(o.Type()) && !trueMeansNil {
+		// the decision starts after the last statement that looks at the read error (an if,
+		// a switch, however the error cases are laid out)
+		if dig != nil && derr != nil {
+			mentions := false
+			ast.Inspect(st, func(n ast.Node) bool {
+				if id, ok := n.(*ast.Ident); ok && objOf(fn, id) == derr {
+					mentions = true
+				}
+				return true
+			})
+			if mentions {
 				tail = i + 1
 			}
 		}
@@ -282,8 +292,10 @@ func checkApplyGuard(r *Run, k *kvCtx, rule string) {
 	}
 	r.Ob(rule, "TxRequest.commitTo (unguarded apply) is used only by persist.persist", p.Position(k.commitTo.Pos()), okUsers, "users: "+strings.Join(names, ", "))
 	sites := p.AllCalls(func(o types.Object, _ *ast.CallExpr) bool { return IsFunc(o, k.apply) })
+	liftedArgs := map[*ast.CallExpr][2]ast.Expr{}
 	n := 0
-	for _, cs := range sites {
+	for si := 0; si < len(sites); si++ {
+		cs := sites[si]
 		if !cs.Fn.InPkgs("aspen") {
 			continue
 		}
@@ -293,17 +305,58 @@ func checkApplyGuard(r *Run, k *kvCtx, rule string) {
 			r.Ob(rule, "apply in "+fn.Top().Name, p.Position(cs.Call.Pos()), true, "local path: versions assigned by this node's versionAssigner immediately upstream")
 			continue
 		}
-		c := p.CFG(fn)
-		if len(cs.Call.Args) != 2 {
+		_, isLifted := liftedArgs[cs.Call]
+		if len(cs.Call.Args) != 2 && !isLifted {
 			r.Ob(rule, "apply in "+fn.Top().Name, p.Position(cs.Call.Pos()), false, "unexpected arity")
 			continue
 		}
-		wObj := objOf(fn, cs.Call.Args[1])
-		sel, _ := ast.Unparen(cs.Call.Fun).(*ast.SelectorExpr)
-		var opObj types.Object
-		if sel != nil {
-			opObj = objOf(fn, sel.X)
+		var wObj, opObj types.Object
+		if !isLifted {
+			wObj = objOf(fn, cs.Call.Args[1])
+			if sel, _ := ast.Unparen(cs.Call.Fun).(*ast.SelectorExpr); sel != nil {
+				opObj = objOf(fn, sel.X)
+			}
 		}
+		// an apply inside a package-local helper that merely receives the writer and the
+		// operation is judged where the helper is called
+		if h := fn.Top(); h.Decl != nil && wObj != nil && opObj != nil {
+			wi, oi := -1, -1
+			for i := 0; i < 8; i++ {
+				po := paramObj(h, i)
+				if po == nil {
+					break
+				}
+				if po == wObj {
+					wi = i
+				}
+				if po == opObj {
+					oi = i
+				}
+			}
+			if wi >= 0 && oi >= 0 {
+				hsites := p.AllCalls(func(o types.Object, _ *ast.CallExpr) bool { return IsFunc(o, h) })
+				if len(hsites) > 0 {
+					lifted := true
+					for _, hs := range hsites {
+						if wi >= len(hs.Call.Args) || oi >= len(hs.Call.Args) {
+							lifted = false
+						}
+					}
+					if lifted {
+						for _, hs := range hsites {
+							sites = append(sites, CallSite{Fn: hs.Fn, Call: hs.Call})
+							liftedArgs[hs.Call] = [2]ast.Expr{hs.Call.Args[wi], hs.Call.Args[oi]}
+						}
+						n--
+						continue
+					}
+				}
+			}
+		}
+		if la, ok := liftedArgs[cs.Call]; ok {
+			wObj, opObj = objOf(fn, la[0]), objOf(fn, la[1])
+		}
+		c := p.CFG(fn)
 		gate := c.EdgesEstablishing(func(atom ast.Expr, val bool) bool {
 			if !val {
 				return false
@@ -873,6 +926,10 @@ func checkAcceptedCollection(r *Run, k *kvCtx) {
 			n++
 			for _, target := range []*FuncNode{k.apply, k.digApply} {
 				calls := CallsIn(fn, calleeIs(target))
+				if len(calls) == 0 {
+					// both writes wrapped in a package-local helper that succeeds only after them
+					calls = wrapperCallsOf(p, fn, target, 1)
+				}
 				if len(calls) != 1 {
 					r.Undecide("C13.R2: %d calls of %s next to the accepted-collection in %s: idiom not recognised", len(calls), target.Name, fn.Name)
 					continue
